@@ -7,7 +7,9 @@ use tracing::instrument;
 /// [`RateLimiter`] tracks connections per client address over some (approximate) time window.
 pub struct RateLimiter<T> {
     last_cleanup: Instant,
-    buckets: HashMap<T, (Instant, f32, f32)>,
+    // (window start, visits of the previous window, visits of the current window); the visits are counted in
+    // integers, an `f32` stops counting at 2^24 (`x + 1.0 == x`)
+    buckets: HashMap<T, (Instant, u64, u64)>,
     duration: Duration,
     limit: f32,
 }
@@ -34,32 +36,33 @@ where
 
         // get or insert the bucket
         let (bucket_window, bucket_last, bucket_current) =
-            self.buckets.entry(key).or_insert((now, 0f32, 0f32));
+            self.buckets.entry(key).or_insert((now, 0, 0));
 
         // if the bucket window changed, move bucket counts
         let bucket_age = now.saturating_duration_since(*bucket_window);
         if bucket_age >= self.duration {
             // handle that the last bucket has also expired
             if bucket_age >= 2 * self.duration {
-                *bucket_current = 0f32
+                *bucket_current = 0
             }
 
             // start the next bucket
             *bucket_window = now;
             *bucket_last = *bucket_current;
-            *bucket_current = 0f32
+            *bucket_current = 0
         }
 
         // handle too many visits
         let bucket_last_weight = now.saturating_duration_since(*bucket_window).as_secs_f32()
             / self.duration.as_secs_f32();
-        let bucket_value = (*bucket_last * (1f32 - bucket_last_weight)) + *bucket_current;
+        let bucket_value =
+            (*bucket_last as f32 * (1f32 - bucket_last_weight)) + *bucket_current as f32;
         if bucket_value >= self.limit {
             return false;
         }
 
         // update bucket count
-        *bucket_current += 1f32;
+        *bucket_current += 1;
 
         // after every second window change, remove all old buckets
         if now.saturating_duration_since(self.last_cleanup) >= self.duration * 2 {
